@@ -12,7 +12,7 @@ Statically decided clauses:
 Not decided: that encode_symbol and decode_symbol are inverse; flush/refill thresholds; export/import
 value identity.  A change of a threshold or of the state update is NOT detected by this check.
 """
-from vlib import sym, rules, effects
+from vlib import sym, rules, effects, anchors
 from vlib.effects import Unresolved
 
 ANS = 'stream::stack::AnsCoder'
@@ -461,6 +461,7 @@ def run(ctx):
     check_state_writers(ctx, F)
     import props.C04 as c04
     c04.check_refill_threshold(ctx, F)     # import loops establish the invariant the decoder's refill test maintains
+    c04.check_top_word_nonzero(ctx, F, anchors.ans_import_loops(F)[1], 'stream::stack::AnsCoder::from_compressed', 'into_compressed')   # export/import identity
     if ctx.tier == 'thorough':
         from vlib import witness
         witness.run(ctx, 'C01')
